@@ -393,7 +393,10 @@ class Explorer:
         self.checks += 1
         self.solver_s += time.time() - t0
         if r == 'unknown':
-            raise Unsupported("solver returned unknown on a path-feasibility query")
+            # undecided feasibility: explore the direction anyway. This is sound for verification - every path
+            # obligation is `path condition => property`, decided by the solver - it only costs extra paths.
+            self.unknown_feasibility = getattr(self, 'unknown_feasibility', 0) + 1
+            return True
         return r == 'sat'
 
     def decide(self, cond):
